@@ -257,6 +257,55 @@ def enum_shipped(tier, shard, nshards):
                 yield {'cfg': {'base': n, 'mods': {}}, 'seed': base * 100 + s, 'ops': [['reset']] + [['step', (j * 3 + s) % 8] for j in range(12)] + [['obs'], ['reset'], ['state'], ['step', 0], ['obs']]}
 
 
+# ------------------------------------------------------------------ (3) reset functions beyond the shipped parameters
+
+
+def strat_reset(tier):
+    from vgv.props import c13
+    return st.sampled_from(c13.FUNCTIONS).flatmap(lambda fn: st.fixed_dictionaries({
+        'fn': st.just(fn), 'p': c13.params_s(fn, tier), 'seed': st.integers(0, 2**31), 'n': st.integers(1, 6),
+        'lib': st.lists(st.integers(0, 10**6), min_size=2, max_size=2, unique=True)}))
+
+
+def oracle_reset(case, ctx):
+    """k resets of a seeded environment: same seed -> same states whatever the library generator holds; globals untouched"""
+    from vgv.props import c14
+    fn, p, seed = case['fn'], case['p'], case['seed']
+    runs = []
+    for lib in case['lib']:
+        reset_gv_rng(lib)
+        np.random.seed(lib % 2**32)
+        random.seed(lib)
+        try:
+            env = c14.make_env(fn, p, seed)
+        except ValueError:
+            ctx.ev.count(fn + ':rejected')
+            return
+        states = []
+        for k in range(case['n']):
+            before = snap()
+            try:
+                s = env.functional_reset()
+            except ValueError:
+                states.append('ValueError')
+                continue
+            after = snap()
+            for nm, b, a in zip(('library generator', 'numpy.random', 'random'), before, after):
+                if a != b:
+                    ctx.fail(f'{fn}({p}) seed {seed}: reset number {k} of a seeded environment changed the state of the global {nm}', {'kind': 'global_rng', 'which': nm})
+            states.append(objs.canon_state(s))
+        runs.append(states)
+    if runs[0] != runs[1]:
+        k = next(i for i, (a, b) in enumerate(zip(*runs)) if a != b)
+        ctx.fail(f'{fn}({p}) seed {seed}: two environments with the same seed produce different initial states at reset number {k} '
+                 f'(the library generator was seeded {case["lib"][0]} vs {case["lib"][1]})', {'kind': 'same_process'})
+    if all(s == 'ValueError' for s in runs[0]):
+        ctx.ev.count(fn + ':rejected')
+        return
+    varied = len({json.dumps(s, sort_keys=True) for s in runs[0]}) > 1
+    ctx.ev.case(case, nt=varied, classes=['reset:' + fn] + (['resets_differ'] if varied else []))
+
+
 CHECKS = [
     Check('interleaving_machine', oracle_machine, machine=machine, examples={'quick': 60, 'thorough': 200}, steps={'quick': 40, 'thorough': 60},
           shards={'quick': 6, 'thorough': 16},
@@ -267,4 +316,7 @@ CHECKS = [
           required=['randomness_consumed', 'perturbed']),
     Check('cross_process_shipped', oracle_prog, enumerate=enum_shipped, shards={'quick': 4, 'thorough': 8},
           rule='all 22 shipped configurations x 3 (10 thorough) seeds x a fixed 17-op program, across worker interpreters'),
+    Check('reset_functions', oracle_reset, strategy=strat_reset, examples={'quick': 800, 'thorough': 3000}, shards={'quick': 4, 'thorough': 16},
+          rule='8 reset functions x parameters (as in C13, beyond the shipped ones) x seeds x 1-6 resets, run twice with differently seeded global generators: identical states, globals untouched',
+          required=['reset:empty', 'reset:memory_rooms', 'resets_differ']),
 ]
